@@ -85,6 +85,7 @@ pub fn log_x(k: K, a: usize, b: usize, c: usize, x: [u64; 4]) {
 
 pub fn clear() {
     get().n = 0;
+    tap().n = 0;
 }
 pub fn len() -> usize {
     get().n
@@ -96,16 +97,38 @@ pub fn enable_access_tap(on: bool) {
     get().tap_access = on;
 }
 
+/// Lock tap: its own (longer) log, so that the event log stays short.
+pub const NTAP: usize = 48;
+pub struct Tap {
+    /// lock id; bit 8 = release, bit 9 = exclusive
+    pub e: [u16; NTAP],
+    pub n: usize,
+}
+pub static mut TAP: Tap = Tap { e: [0; NTAP], n: 0 };
+#[inline]
+pub fn tap() -> &'static mut Tap {
+    #[allow(static_mut_refs)]
+    unsafe {
+        &mut *core::ptr::addr_of_mut!(TAP)
+    }
+}
+#[inline]
+fn tap_push(v: u16) {
+    let t = tap();
+    assert!(t.n < NTAP, "VERIF: bound exceeded: lock tap full");
+    t.e[t.n] = v;
+    t.n += 1;
+}
 #[inline]
 pub fn tap_request(id: usize, excl: bool) {
     if get().tap_locks {
-        log(K::LockReq, id, excl as usize, 0);
+        tap_push(id as u16 | if excl { 512 } else { 0 });
     }
 }
 #[inline]
 pub fn tap_release(id: usize, excl: bool) {
     if get().tap_locks {
-        log(K::LockRel, id, excl as usize, 0);
+        tap_push(id as u16 | 256 | if excl { 512 } else { 0 });
     }
 }
 #[inline]
@@ -115,17 +138,15 @@ pub fn access(map: usize, off: usize, len: usize) {
     }
 }
 
-/// Number of events of kind `k` in the log.
+/// Number of events of kind `k` in the log (loop-free).
 pub fn count(k: K) -> usize {
     let l = get();
     let mut c = 0;
-    let mut i = 0;
-    while i < NEV {
+    crate::unroll20!(i, {
         if i < l.n && l.k[i] == k {
             c += 1;
         }
-        i += 1;
-    }
+    });
     c
 }
 
@@ -133,8 +154,7 @@ pub fn count(k: K) -> usize {
 pub fn touches(file: usize, lo: usize, hi: usize) -> bool {
     let l = get();
     let mut hit = false;
-    let mut i = 0;
-    while i < NEV {
+    crate::unroll20!(i, {
         if i < l.n {
             let (s, e, f) = match l.k[i] {
                 K::Write | K::Punch => (l.b[i], l.b[i] + l.c[i], l.a[i]),
@@ -145,7 +165,7 @@ pub fn touches(file: usize, lo: usize, hi: usize) -> bool {
                 hit = true;
             }
         }
-        i += 1;
-    }
+    });
     hit
 }
+const _: () = assert!(NEV == 20);
